@@ -761,7 +761,7 @@ def run(ctx: Any) -> None:
     if shm.HEADER_SIZE != H or shm.MAX_ALLOCS > MAX:
         report(ctx, {"kind": "consts"}, "C28:limit-constants", f"HEADER_SIZE={shm.HEADER_SIZE}, MAX_ALLOCS={shm.MAX_ALLOCS}: not the documented layout / the 4094-entry limit")
     # ---- allocator: exhaustive small spaces ---------------------------------------------------------
-    plans = [(2, 7), (3, 5), (4, 4)] if not thorough and not ctx.deep else [(2, 8), (3, 7), (4, 6), (5, 4), (6, 4)]
+    plans = [(2, 6), (3, 5), (4, 4)] if not thorough and not ctx.deep else [(2, 8), (3, 7), (4, 6), (5, 4), (6, 4)]
     n = 0
     for slots, depth in plans:
         n += dfs_exhaustive(ctx, slots, depth)
